@@ -499,9 +499,8 @@ def check_C12(tier, seed):
                      'checksum lists with over-long lines, no trailing newline and binary junk; truncated containers']
     libw = ['stream', 'channel', 'prng', 'keystore', 'cppobj', 'masked']
     if tier == 'quick':
-        plan = [('asm', (4, 2, 4), 'san', libw, 20000), ('c64', (3, 3, 3), 'san', ['stream', 'channel', 'masked', 'cppobj'], 12000),
-                ('c32', (2, 1, 2), 'san', ['stream', 'channel', 'masked', 'keystore', 'cppobj'], 12000), ('dxor', (4, 4, 4), 'san', ['stream', 'channel', 'masked', 'cppobj', 'keystore', 'prng'], 8000),
-                ('gen', (4, 2, 4), 'san', ['stream', 'channel', 'cppobj', 'keystore'], 8000),
+        plan = [('asm', (4, 2, 4), 'san', libw, 20000), ('c64', (3, 3, 3), 'san', libw, 10000), ('c32', (2, 1, 2), 'san', libw, 10000),
+                ('dxor', (4, 4, 4), 'san', libw, 8000), ('gen', (4, 2, 4), 'san', libw, 8000),
                 # key shares below the maximum, data shares below the key shares: array sizes and loop bounds differ
                 ('asm', (3, 2, 4), 'san', ['masked', 'channel', 'cppobj'], 8000), ('c64', (2, 2, 3), 'san', ['masked', 'channel', 'cppobj'], 8000),
                 ('c32', (2, 1, 4), 'san', ['masked', 'channel'], 8000), ('c64', (3, 1, 4), 'san', ['masked', 'channel'], 6000)]
